@@ -63,8 +63,9 @@ META = {
                 'finite grids of requests (all names of both tables + an unknown name + the 4 callable conventions x all 32 Boolean '
                 'option combinations; 6 cycle spellings x 4 symmetry attributes x one accelerator per behaviour class) for ALL tol / '
                 'maxiter / info / residual norm, by kernel evaluation; arbitrary cycle / accelerator STRINGS outside the grids are '
-                'covered by the comparison with the real function only'],
-    'trusted_extra': ['harness/py2lean2.py (Python-AST -> Lean translator, second mode: whole functions with the numerical work abstracted; nested defs as closure values, try/except, keyword calls), lean/PyamgV/Model/ExtPy2Rt.lean (+ ExtPyRt.lean: CPython semantics on the PyVal universe and the event semantics of opaque objects) and harness/extpy2.py (mock objects implementing the same event semantics in Python): exercised on every run by the exact comparison (result, exception class, whole trace) of the generated definitions with the REAL functions executed against the mocks (op ext_py2_call)'],
+                'covered by the comparison with the real function only',
+                'generated_cycle_F_visits_grid_5x3 (E57): that the F-cycle of the __solve GENERATED from the working tree forwards cycles_per_level to the F visit of the next level and follows it by that many V-cycles (visits = C03.traceM .F k) is proved on a FINITE grid only (2..6 levels x cycles_per_level 1..3, kernel evaluation on a mock hierarchy); other depths / values are covered by the exact comparison of the generated definition with the real method only (part_pylogic3)'],
+    'trusted_extra': ['harness/py2lean3_cycle.py + lean/PyamgV/Model/ExtPy3CycRt.lean + harness/extpy3_cycle.py (E57: the translation of MultilevelSolver.__solve, recursion as a call of the generated definition under the assumption that self.__solve is this very method, tuple subscripts; mock hierarchies): exercised on every run by the exact comparison (result, exception class, whole trace) with the REAL method (op ext_py3c_call)', 'harness/py2lean2.py (Python-AST -> Lean translator, second mode: whole functions with the numerical work abstracted; nested defs as closure values, try/except, keyword calls), lean/PyamgV/Model/ExtPy2Rt.lean (+ ExtPyRt.lean: CPython semantics on the PyVal universe and the event semantics of opaque objects) and harness/extpy2.py (mock objects implementing the same event semantics in Python): exercised on every run by the exact comparison (result, exception class, whole trace) of the generated definitions with the REAL functions executed against the mocks (op ext_py2_call)'],
     'assumptions': ['floating point: a recomputed residual norm is compared with the stopping threshold with a relative slack of '
                     '1e-6 plus 5e-15 * (initial residual + ||A||_1 ||x|| + ||b||) (recurrence residuals drift from true residuals); '
                     'decisions within 1e-9 (1e-7 for the comparison with the direct call) of the threshold are skipped and counted',
@@ -1253,9 +1254,20 @@ def part_pylogic2(ctx):
     batch.run(ctx, lean)
 
 
+def part_pylogic3(ctx):
+    """extension E57: MultilevelSolver.__solve (what the F-cycle does with cycles_per_level, the cycle types) as GENERATED from the
+    working tree (harness/py2lean3_cycle.py) vs the real method executed against mock hierarchies (harness/extpy3_cycle.py)"""
+    import extpy3_cycle
+
+    def lean(c, lines):
+        return c.lean(lines)
+    extpy3_cycle.part_cycle(ctx, ctx.scale(120, 3000), lean)
+
+
 def run(ctx):
     np.seterr(all='ignore')
     part_pylogic2(ctx)
+    part_pylogic3(ctx)
     part_a(ctx, ctx.scale(220, 8000))
     part_b(ctx, ctx.scale(26, 1400), ctx.scale(14, 24))
     part_c(ctx, ctx.scale(8, 140), ctx.scale(5, 140))
